@@ -99,7 +99,7 @@ def file_inventory(path, acc=None, files=None):
     return acc, files
 
 
-def relocated_report(names, c_locale=False):
+def relocated_report(names, c_locale=False, late=False):
     """Load by name from a relocated copy in a fresh interpreter (optionally
     one whose default text encoding is ASCII: the C locale, UTF-8 mode and
     locale coercion off -- what a data file with a stray non-ASCII character
@@ -110,6 +110,9 @@ def relocated_report(names, c_locale=False):
         shutil.copytree(libs.data_dir(), dst)
         env = dict(os.environ)
         env['pgradd_DATA_DIR'] = dst
+        if late:
+            env.pop('pgradd_DATA_DIR')
+            env['VMON_LATE_DATA_DIR'] = dst
         if c_locale:
             env.update({'LC_ALL': 'C', 'LANG': 'C', 'PYTHONUTF8': '0',
                         'PYTHONCOERCECLOCALE': '0'})
@@ -208,6 +211,18 @@ def check_locations(ctx, name):
                        else rep_c['digests'].get(name)})
         return
     ctx.count('relocated_loads_under_the_C_locale')
+    rep_l, dst_l, err_l = relocated_report([name], late=True)
+    ctx.evals()
+    inside_l = [] if rep_l is None else [
+        f for f in rep_l['opened'] if os.path.realpath(f).startswith(
+            os.path.realpath(libs.data_dir()) + os.sep)]
+    if rep_l is None or rep_l['digests'].get(name) != da or inside_l:
+        ctx.violation('override set after the package was imported (before '
+                      'the first load) is not honoured', case,
+                      {'stderr': (err_l or '')[-400:],
+                       'opened_in_package_dir': inside_l[:4]})
+        return
+    ctx.count('relocated_loads_with_late_override')
     # the scheme alone, loaded by name: here, by path, and relocated
     from pgradd.GroupAdd.Scheme import GroupAdditivityScheme
     s1 = observe(GroupAdditivityScheme.Load, name)
